@@ -55,3 +55,64 @@ Print Assumptions C04_error_raises.
 (* the empty plan is outside the statement (1..n source groups): the batch loop never exits on it *)
 Example C04_empty_plan_spins : forall n, loop_head [] (run false true (fun _ => false) [] (repeat EScan n)) = Looping.
 Proof. exact empty_plan_spins_l. Qed.
+
+(* ---------- determinism of link selection (Model/LinkSel.v = C18's model of ResolveLinks._find_matching_links /
+   _select_most_specific_links, Model/LinkSelReq.v) ----------
+   self.links is a Python set of Link whose iteration order depends on PYTHONHASHSEED; in the model the iteration order is the
+   order of the list `links`.  The links selected for a pair of feature-group classes - and the joins (pair, link) of a whole
+   request - are the same multiset for EVERY iteration order, for every class hierarchy, link set and pair. *)
+From Coq Require Import ZArith String Permutation.
+Require Import MV.Model.LinkSel MV.Model.LinkSelReq MV.Proofs.LinkSelReqP.
+
+Theorem C04_link_selection_order_independent : forall mro links links' lf rf,
+  Permutation links links' -> Permutation (find_matching mro links lf rf) (find_matching mro links' lf rf).
+Proof. exact find_matching_perm_l. Qed.
+Print Assumptions C04_link_selection_order_independent.
+
+(* the same, said about sets: two duplicate-free listings of one link set select the same links; the NUMBER of joins of a pair
+   is order independent as well *)
+Theorem C04_link_selection_function_of_set : forall mro links links' lf rf,
+  NoDup links -> NoDup links' -> (forall x, In x links <-> In x links') ->
+  Permutation (find_matching mro links lf rf) (find_matching mro links' lf rf).
+Proof. exact find_matching_set_l. Qed.
+Print Assumptions C04_link_selection_function_of_set.
+
+Theorem C04_link_selection_same_members : forall mro links links' lf rf l,
+  Permutation links links' -> In l (find_matching mro links lf rf) <-> In l (find_matching mro links' lf rf).
+Proof. exact find_matching_in_perm_l. Qed.
+Print Assumptions C04_link_selection_same_members.
+
+(* whole request: `pairs` = the ordered pairs of feature-group classes for which a link is looked up (also iterated in set /
+   dict order); the multiset of joins (pair, selected link) does not depend on either order *)
+Theorem C04_request_joins_order_independent : forall mro links links' pairs pairs',
+  Permutation links links' -> Permutation pairs pairs' ->
+  Permutation (request_joins mro links pairs) (request_joins mro links' pairs').
+Proof. exact request_joins_perm_l. Qed.
+Print Assumptions C04_request_joins_order_independent.
+
+Theorem C04_request_joins_meaning : forall mro links pairs ab l,
+  In (ab, l) (request_joins mro links pairs) <-> In ab pairs /\ In l (find_matching mro links (fst ab) (snd ab)).
+Proof. exact request_joins_in_l. Qed.
+Print Assumptions C04_request_joins_meaning.
+
+(* REFUTED ALTERNATIVE "the single most specific link wins" = min(link_distances, key=distance), i.e. the first link of minimal
+   distance in iteration order (find_matching_first).  It only ever returns links the real rule returns (so soundness checks
+   do not see it) ... *)
+Theorem C04_first_of_minimal_is_sound : forall mro links lf rf l,
+  In l (find_matching_first mro links lf rf) -> In l (find_matching mro links lf rf).
+Proof. exact first_subset_l. Qed.
+Print Assumptions C04_first_of_minimal_is_sound.
+
+(* ... but it is NOT a function of the link set: BaseCustomers(0) <- Customers(2), BaseOrders(1) <- Orders(3); the valid link
+   set { INNER(BaseCustomers, Orders), LEFT(Customers, BaseOrders) } ties at distance 1 for (Customers, Orders); the two
+   iteration orders select two different links (an INNER join in one process, a LEFT join in another). *)
+Example C04_link_selection_first_of_minimal_refuted :
+  Permutation [tie_inner; tie_left] [tie_left; tie_inner] /\
+  validate_rejects [tie_inner; tie_left] = false /\
+  find_matching_first tie_mro [tie_inner; tie_left] 2%nat 3%nat = [tie_inner] /\
+  find_matching_first tie_mro [tie_left; tie_inner] 2%nat 3%nat = [tie_left] /\
+  ~ Permutation (find_matching_first tie_mro [tie_inner; tie_left] 2%nat 3%nat)
+                (find_matching_first tie_mro [tie_left; tie_inner] 2%nat 3%nat) /\
+  find_matching tie_mro [tie_inner; tie_left] 2%nat 3%nat = [tie_inner; tie_left] /\
+  find_matching tie_mro [tie_left; tie_inner] 2%nat 3%nat = [tie_left; tie_inner].
+Proof. exact first_refuted_l. Qed.
